@@ -231,7 +231,8 @@ func (l *mvccLock) check(ts uint64, key []byte, resolvedLocks []uint64) (uint64,
 	}
 	// for point get latest version.
 	if ts == math.MaxUint64 && bytes.Equal(l.primary, key) {
-		return l.startTS - 1, nil
+		// like TiKV: the lock is ignored, the latest committed version is read
+		return ts, nil
 	}
 	// Skip lock if the lock is resolved.
 	for _, resolved := range resolvedLocks {
